@@ -889,6 +889,9 @@ func (c *compiler) VisitUnaryExpr(e *ast.UnaryExpr) ast.VisitResult {
 			c.latestReturnType = c.ddpinttyp
 		case c.ddpbytetyp:
 			// a byte is unsigned and therefore does not need to be changed
+			// but the result is a Zahl like for the other unary minus
+			c.latestReturn = c.floatOrByteAsInt(rhs, typ)
+			c.latestReturnType = c.ddpinttyp
 		default:
 			c.err("invalid Parameter Type for BETRAG: %s", typ.Name())
 		}
